@@ -102,10 +102,37 @@ def msgOp (bz : Bytes) : String :=
   | .panic => "panic"
   | _ => "nopanic"
 
+def varintRes (r : Res Nat) : String :=
+  match r.out with
+  | .ok v rest => s!"{v} {rest.length}"
+  | .err e => "err " ++ e.name
+  | .panic => "panic"
+
+/-- `v31 n` / `v63 n`: write, append `aa`, read back; `v31r X` / `v63r X`: read the raw bytes -/
+def varintOp (k a : String) : Option String :=
+  if k == "v31" || k == "v63" then
+    match a.toNat? with
+    | some n =>
+      let lim := if k == "v31" then max31 else max63
+      if n > lim then some "err range"
+      else
+        let raw := putUvarintF 9 n ++ [0xaa]
+        some (varintRes (if k == "v31" then readVarint31 raw else readVarint63 raw))
+    | none => some "bad-op"
+  else if k == "v31r" || k == "v63r" then
+    match rawArg a with
+    | some raw => some (varintRes (if k == "v31r" then readVarint31 raw else readVarint63 raw))
+    | none => some "bad-op"
+  else none
+
 def codecStep (line : String) : String :=
   match (line.splitOn " ").filter (· ≠ "") with
   | [k, a] =>
-    if k == "msg" || k == "cmsg" then
+    if let some r := varintOp k a then r else
+    -- batch messages: the JSON layer around the raw entries is third-party (not modelled); the
+    -- property is that GetHeaders / GetBlocks never panic
+    if k == "msghdrs" || k == "msgblks" then "nopanic"
+    else if k == "msg" || k == "cmsg" then
       match rawArg a with
       | some bz => msgOp bz
       | none => "bad-op"
